@@ -14,7 +14,7 @@ RULE = ('one case = one scripted server presenting chosen public-key blobs durin
         'signed by RSA (1024..8192), Ed25519 and ECDSA (P-256/384/521) CAs; text, verbose and JSON.  Oracle: reported size == bit length of the presented modulus (independent blob parser), CA type/size likewise, fingerprints == '
         'hashlib SHA-256/MD5 of the presented blob (one RSA-family entry, none for certificates), differential threshold oracle on the notes relative to the baseline.  Non-trivial: probe answered and a size or fingerprint compared; '
         'distinct = distinct (blob set, name list, rendering)')
-REQUIRED = {'probes_refused_after_small_key': 6, 'cert_beside_plain_rsa': 10, 'plain_beside_cert_checks': 20, 'sizes_compared': 40, 'fingerprints_compared': 40, 'threshold_checks': 40, 'below_2048': 5, 'warn_band': 5, 'ca_checks': 8, 'json_runs': 10}
+REQUIRED = {'certificate_field_variants': 10, 'probes_refused_after_small_key': 6, 'cert_beside_plain_rsa': 10, 'plain_beside_cert_checks': 20, 'sizes_compared': 40, 'fingerprints_compared': 40, 'threshold_checks': 40, 'below_2048': 5, 'warn_band': 5, 'ca_checks': 8, 'json_runs': 10}
 ASSUMPTIONS = ['moduli are multiples of 64 bits as the quantifier says; sizes that are not a multiple of 16 bits form a separate sub-family run in the thorough tier only (the tool measures whole bytes)',
                'threshold oracle is differential (notes at size B minus notes at 4096 bits for the same names), so note wording is not frozen',
                'for certificates both the host key and the CA key are rated; equal warning texts may be merged by the tool, so ">= 1 extra warning" is demanded, not a count']
@@ -25,6 +25,11 @@ MANIFEST = {
 }
 RSA_FAMILY = ['ssh-rsa', 'rsa-sha2-256', 'rsa-sha2-512']
 ARRANGEMENTS = [list(p) for n in (1, 2, 3) for p in itertools.permutations(RSA_FAMILY, n)]
+
+
+# legitimate variations of the certificate fields around the CA key (ssh-keygen -h without -n gives no principals; -I "" an empty key id; -O options; long validity)
+CERT_VARIANTS = [{}, {'principals': []}, {'key_id': ''}, {'principals': ['a.example', 'b.example', 'c.example'], 'key_id': 'k' * 200}, {'serial': 2 ** 63, 'valid_after': 1, 'valid_before': 2 ** 40},
+                 {'extensions_hex': (b'\x00\x00\x00\x15permit-X11-forwarding\x00\x00\x00\x00').hex(), 'principals': []}, {'key_id': '', 'principals': []}]
 
 
 def cases(tier, seed):
@@ -45,7 +50,7 @@ def cases(tier, seed):
     for i, ((ht, hb), ca) in enumerate(itertools.product(hosts, cas)):
         if tier == 'quick' and i % 2 != seed % 2:
             continue
-        cs.append({'kind': 'cert', 'host': ht, 'bits': hb, 'ca': ca, 'render': ['text', 'json'][i % 2]})
+        cs.append({'kind': 'cert', 'host': ht, 'bits': hb, 'ca': ca, 'render': ['text', 'json'][i % 2], 'var': CERT_VARIANTS[i % len(CERT_VARIANTS)]})
     for t in ('ed25519', 'ed448'):
         for rnd in ('text', 'json', 'verbose'):
             cs.append({'kind': 'fixed', 'type': t, 'render': rnd})
@@ -191,7 +196,7 @@ def run_cert(c):
     viol, counters = [], {}
 
     def script(bits, ca):
-        spec = {'type': ht, 'bits': bits, 'ca': ca}
+        spec = dict({'type': ht, 'bits': bits, 'ca': ca}, **(c.get('var') or {}))
         kexname = ['curve25519-sha256', 'ecdh-sha2-nistp256', 'diffie-hellman-group14-sha256'][(c['bits'] // 512 + len(c['ca']['type'])) % 3]
         return {'banner': 'SSH-2.0-OpenSSH_9.1', 'kex': audit.sym_kex([kexname], [name, 'ssh-ed25519', 'ssh-ed448', 'ecdsa-sha2-nistp256'], ['aes128-ctr'], ['hmac-sha2-256']),
                 'hostkeys': {name: spec, 'ssh-ed25519': {'type': 'ed25519'}, 'ssh-ed448': {'type': 'ed448'}, 'ecdsa-sha2-nistp256': {'type': 'ecdsa', 'bits': 256}}, 'gex': None}
@@ -200,7 +205,9 @@ def run_cert(c):
     if res is None or base is None:
         viol.append(_v('C11/audit-failed:status%s' % (r.status if res is None else rb.status), 'audit did not complete', out=(r if res is None else rb).out[-300:]))
         return viol, counters
-    facts = wire.blob_facts(wire.key_blob({'type': ht, 'bits': c['bits'], 'ca': c['ca']}))
+    facts = wire.blob_facts(wire.key_blob(dict({'type': ht, 'bits': c['bits'], 'ca': c['ca']}, **(c.get('var') or {}))))
+    if c.get('var'):
+        counters['certificate_field_variants'] = 1
     o = res.get(name)
     if o is None:
         viol.append(_v('C11/key-missing', 'advertised host key absent from the report', name=name))
